@@ -334,7 +334,19 @@ class Lowerer:
             i += 1
         return t, loops
 
+    def annotate_loop(self, s, ordinal, name):
+        """Route D: keep the loop, insert the cbmc loop-contract clauses (macro XV_LOOP_CONTRACT_<name>) in place"""
+        t, loops = self.find_loops(s)
+        if ordinal >= len(loops): raise ExtractError('loop %d not found (have %d)' % (ordinal, len(loops)))
+        kind, i = loops[ordinal]
+        if kind == 'do': pos = i + 1
+        else:
+            p = _next(t, i); e = _match_fwd(t, p); pos = e + 1
+        self.fire('cut_loop')
+        return ''.join(t[:pos]) + ' XV_LOOP_CONTRACT(' + name + ') ' + ''.join(t[pos:])
+
     def cut_loop(self, s, ordinal, name):
+        if self.spec.get('_route') == 'D': return self.annotate_loop(s, ordinal, name)
         t, loops = self.find_loops(s)
         if ordinal >= len(loops): raise ExtractError('loop %d not found (have %d)' % (ordinal, len(loops)))
         kind, i = loops[ordinal]
